@@ -1,5 +1,6 @@
 import Agd.Gen.TrC05
 import Agd.Model.ECS
+import Agd.Model.ECSRefresh
 /-!
 # C05: the ECS cache path as translated from the source
 
@@ -499,6 +500,89 @@ theorem serveDNS_total (mh : S_ecscache_mwHandler) (ctx rw req : Option String)
     cases hs : sbl.2 <;> simp [mwHandler_ServeDNS, hd, hloc, hg, hs]
 
 example : (mwHandler_ServeDNS ⟨none, none⟩ none none none none none false 1 0 "" (none, false) none none none none none none none ("", none)) = none := by
+  decide
+
+
+/-! ## `geoip.File.Refresh` and `geoip.File.Data`: the lock protocol (wave h)
+
+`Model/ECSRefresh.lean` runs the refresher as the program `codeProg = [lock, swap, clear, unlock]`
+against look-ups whose locked part (`fill`) covers the readers and `setCaches`.  The theorems below
+read both facts off the translated source, for every run. -/
+
+/-- The lock-protocol actions in a trace (the swap of the readers is an assignment, not a call: it is
+visible in the returned `File`). -/
+def lockActs (tr : Trace) : List Agd.ECS.Refresh.RAct :=
+  tr.filterMap fun c =>
+    if c.1 == "Lock" then some .lock
+    else if c.1 == "Unlock" then some .unlock
+    else if c.1 == "Clear" then some .clear
+    else none
+
+/-- **refresh_success_trace.**  A refresh whose three fallible steps succeed: the files are read and the
+maps rebuilt first; then `Lock`, the two `Clear`s — of `f.hostCache` and `f.ipCache`, nothing else is
+cleared and nothing is cleared earlier — and the deferred `Unlock`; the returned `File` has the new
+readers. -/
+theorem refresh_success_trace (f : S_geoip_File) (ctx asn country : Option String) :
+    (File_Refresh f ctx (asn, none) (country, none) none).2.1 = none ∧
+    (File_Refresh f ctx (asn, none) (country, none) none).1.asn = asn ∧
+    (File_Refresh f ctx (asn, none) (country, none) none).1.country = country ∧
+    names (File_Refresh f ctx (asn, none) (country, none) none).2.2 =
+      ["InfoContext", "geoIPFromFile", "geoIPFromFile", "resetSubnetMappings", "SetToCurrentTime", "Set",
+        "SetToCurrentTime", "Set", "Lock", "Clear", "Clear", "Unlock", "InfoContext"] ∧
+    callsOf "Clear" (File_Refresh f ctx (asn, none) (country, none) none).2.2 =
+      [[toString f.hostCache], [toString f.ipCache]] ∧
+    lockActs (File_Refresh f ctx (asn, none) (country, none) none).2.2 = [.lock, .clear, .clear, .unlock] := by
+  simp [File_Refresh, names, callsOf, lockActs]
+
+/-- Wherever between `Lock` and `Unlock` the assignment of the readers stands, the program passes the
+static criterion of the machine (`refresh_race_safe`); the code has it before the clears (`codeProg`,
+with the two clears as one). -/
+theorem refresh_locked_section_safe :
+    Agd.ECS.Refresh.progSafe [.lock, .swap, .clear, .clear, .unlock] = true ∧
+    Agd.ECS.Refresh.progSafe [.lock, .clear, .swap, .clear, .unlock] = true ∧
+    Agd.ECS.Refresh.progSafe [.lock, .clear, .clear, .swap, .unlock] = true ∧
+    Agd.ECS.Refresh.progSafe Agd.ECS.Refresh.codeProg = true := by decide
+
+/-- **refresh_failure_keeps.**  If reading a file or rebuilding the maps fails, the `File` is returned as
+it was (old readers) and neither the lock is taken nor a cache cleared. -/
+theorem refresh_failure_keeps (f : S_geoip_File) (ctx : Option String) (o1 o2 : Option String × Option String)
+    (o3 : Option String) (h : o1.2.isSome ∨ o2.2.isSome ∨ o3.isSome) :
+    (File_Refresh f ctx o1 o2 o3).1 = f ∧ (File_Refresh f ctx o1 o2 o3).2.1.isSome ∧
+      lockActs (File_Refresh f ctx o1 o2 o3).2.2 = [] := by
+  cases h1 : o1.2 <;> cases h2 : o2.2 <;> cases h3 : o3 <;>
+    simp_all [File_Refresh, lockActs]
+
+/-- **data_hit_no_lock.**  A cache hit returns the cached item without taking the lock or asking the
+readers. -/
+theorem data_hit_no_lock (f : S_geoip_File) (host ip : String) (hip : ip ≠ "") (dbh item : Option S_geoip_Location)
+    (is4in6 : Bool) (a4 : String) (key : Option String) (la : Int × Option String) (sc : Option String) :
+    (File_Data f host ip dbh is4in6 a4 key (item, true) la sc).1 = item ∧
+      (names (File_Data f host ip dbh is4in6 a4 key (item, true) la sc).2.2).filter
+        (fun n => n == "RLock" || n == "lookupASN" || n == "setCtry" || n == "setCaches") = [] := by
+  cases is4in6 <;> simp [File_Data, hip, names]
+
+/-- **data_miss_locked.**  A miss: `Get` first, outside the lock; then `RLock`, `lookupASN`, `setCtry`,
+`setCaches`, `RUnlock` in this order — the result is stored before the read lock is released, on both
+paths (plain address, IPv4-mapped address). -/
+theorem data_miss_locked (f : S_geoip_File) (host ip : String) (hip : ip ≠ "") (dbh item : Option S_geoip_Location)
+    (is4in6 : Bool) (a4 : String) (key : Option String) (asn : Int) :
+    (names (File_Data f host ip dbh is4in6 a4 key (item, false) (asn, none) none).2.2).dropWhile (fun n => !(n == "Get")) =
+      ["Get", "Inc", "RLock", "lookupASN", "setCtry", "setCaches", "RUnlock"] := by
+  cases is4in6 <;> simp [File_Data, hip, names]
+
+/-- **data_error_unlocks.**  A failing look-up releases the read lock and stores nothing. -/
+theorem data_error_unlocks (f : S_geoip_File) (host ip : String) (hip : ip ≠ "") (dbh item : Option S_geoip_Location)
+    (is4in6 : Bool) (a4 : String) (key : Option String) (la : Int × Option String) (sc : Option String)
+    (h : la.2.isSome ∨ sc.isSome) :
+    (names (File_Data f host ip dbh is4in6 a4 key (item, false) la sc).2.2).getLast? = some "RUnlock" ∧
+      "setCaches" ∉ names (File_Data f host ip dbh is4in6 a4 key (item, false) la sc).2.2 := by
+  cases is4in6 <;> cases h1 : la.2 <;> cases h2 : sc <;> simp_all [File_Data, names]
+
+example : lockActs (File_Refresh ⟨none, none, none, some "mu", some "asn0", some "ctry0", none, none, none, none,
+    some "ipc", some "hc", "a.mmdb", "c.mmdb"⟩ none (some "asn1", none) (some "ctry1", none) none).2.2 =
+    [.lock, .clear, .clear, .unlock] := by decide
+example : (File_Refresh ⟨none, none, none, some "mu", some "asn0", some "ctry0", none, none, none, none,
+    some "ipc", some "hc", "a.mmdb", "c.mmdb"⟩ none (some "asn1", none) (none, some "boom") none).1.asn = some "asn0" := by
   decide
 
 
